@@ -508,7 +508,7 @@ type boundedRes struct {
 
 var boundedTests = map[string][]string{
 	"C03": {"TestKvcBoundedRowBatch"},
-	"C04": {"TestKvcBoundedRewrite"},
+	"C04": {"TestKvcBoundedRewrite", "TestKvcBoundedRewriteText"},
 	"C05": {"TestKvcBoundedAliasExpansion", "TestKvcBoundedAliasNames", "TestKvcBoundedRowBatch"},
 	"C09": {"TestKvcBoundedAggregates"},
 	"C15": {"TestKvcBoundedPrecedenceChains", "TestKvcBoundedParseRender"},
@@ -516,6 +516,7 @@ var boundedTests = map[string][]string{
 }
 
 var boundedBound = map[string]string{
+	"TestKvcBoundedRewriteText":      "every `+` chain of at most four operands over {'a', 'b', key, upper(value), str(int(value)), lower(key)} in all parenthesisations (6 948 expressions x 3 pairs), evaluated before and after ExpressionOptimizer",
 	"TestKvcBoundedSpacing":          "every sequence of at most four tokens from a pool of 20 token texts, each rendered with every choice of nothing / blank / tab-newline run in its optional gaps (4.4 million texts)",
 	"TestKvcBoundedPrecedenceChains": "every unparenthesised chain of at most four binary operators (69 904 texts) against a split-at-the-weakest-operator oracle; print/re-parse of the accepted ones",
 	"TestKvcBoundedParseRender":      "30 000 random typed trees of depth at most 4 (seed 15) with IN, BETWEEN, !, calls and field access, each printed with minimal, random and full parenthesisation and random letter case; print/re-parse of the accepted ones (about 43 000 statements)",
